@@ -39,6 +39,13 @@ class Prior(Distribution, Module, ABC):
         if isinstance(self, TransformedDistribution):
             _load_transformed_to_base_dist(self)
 
+    def _apply(self, fn, *args, **kwargs):
+        # .double() / .to() replace the buffers: the base distribution of a transformed prior has to follow them
+        module = super()._apply(fn, *args, **kwargs)
+        if isinstance(self, TransformedDistribution):
+            _load_transformed_to_base_dist(self)
+        return module
+
     def __setattr__(self, name: str, value: Any) -> None:
         if hasattr(self, name) and "_transformed_" in name:
             base_attr_name = name.replace("_transformed_", "")
